@@ -59,6 +59,10 @@ impl<T: UciTx, H: Heuristic, M: MoveOrder> Search<T, H, M> {
                     UciQuit => {
                         self.flags.quit_as_soon_as_possible = true;
                     }
+                    #[cfg(inkayaku_verif)]
+                    SearchMessage::VerifDumpFen(reply) => {
+                        reply.send(Fen::from(&self.state.bitboard).fen).ok();
+                    }
                 }
             }
         }
@@ -113,6 +117,10 @@ impl<T: UciTx, H: Heuristic, M: MoveOrder> Search<T, H, M> {
                     UciQuit => {
                         self.flags.stop_as_soon_as_possible = true;
                         self.flags.quit_as_soon_as_possible = true;
+                    }
+                    #[cfg(inkayaku_verif)]
+                    SearchMessage::VerifDumpFen(_) => {
+                        // only answered while idle
                     }
                 },
                 Err(error) => {
@@ -312,6 +320,8 @@ impl<T: UciTx, H: Heuristic, M: MoveOrder> Search<T, H, M> {
         let color = self.state.bitboard.turn;
 
         let check_flags = self.should_check_flags();
+        #[cfg(inkayaku_verif)]
+        let check_flags = check_flags || self.verif_poll();
         if check_flags {
             self.check_messages();
             self.uci_tx.info(&Info {
@@ -606,6 +616,8 @@ pub enum SearchMessage {
     UciStop,
     UciPonderHit,
     UciQuit,
+    #[cfg(inkayaku_verif)]
+    VerifDumpFen(std::sync::mpsc::Sender<String>),
 }
 
 /// UCI options
@@ -698,5 +710,92 @@ mod test {
     fn test_heuristic_factor() {
         assert_eq!(calculate_heuristic_factor(BLACK), -1);
         assert_eq!(calculate_heuristic_factor(WHITE), 1);
+    }
+}
+
+/// Verification hook: drive a `Search` synchronously on the caller's thread and inject an abort
+/// at a chosen negamax node, through the same poll site and code paths a real stop / time-out uses.
+#[cfg(inkayaku_verif)]
+pub mod verif {
+    use std::cell::RefCell;
+    use std::sync::Arc;
+    use std::sync::mpsc::{channel, Sender};
+    use std::time::Duration;
+
+    use inkayaku_core::fen::Fen;
+    use inkayaku_uci::{Go, UciMove, UciTx};
+
+    use crate::engine::heuristic::simple::SimpleHeuristic;
+    use crate::engine::move_order::MvvLvaMoveOrder;
+    use crate::engine::search::{EngineOptions, Search, SearchMessage};
+
+    #[derive(Copy, Clone, Eq, PartialEq, Debug)]
+    pub enum AbortMode {
+        /// a `stop` is waiting in the command channel when the poll happens
+        StopSeen,
+        /// the move time has run out when the poll happens
+        TimeUp,
+    }
+
+    thread_local! {
+        static ABORT_PLAN: RefCell<Option<(u64, AbortMode)>> = const { RefCell::new(None) };
+        static STOP_TX: RefCell<Option<Sender<SearchMessage>>> = const { RefCell::new(None) };
+    }
+
+    /// Force a poll when this thread's search is about to count negamax node number `node` (0-based)
+    pub fn set_abort_plan(plan: Option<(u64, AbortMode)>) {
+        ABORT_PLAN.with(|p| *p.borrow_mut() = plan);
+    }
+
+    pub(super) fn take_plan_if_due(nodes: u64) -> Option<AbortMode> {
+        ABORT_PLAN.with(|p| {
+            let mut plan = p.borrow_mut();
+            match *plan {
+                Some((node, mode)) if node == nodes => {
+                    *plan = None;
+                    Some(mode)
+                }
+                _ => None,
+            }
+        })
+    }
+
+    pub struct VerifSearch<T: UciTx> {
+        search: Search<T, SimpleHeuristic, MvvLvaMoveOrder>,
+        search_tx: Sender<SearchMessage>,
+    }
+
+    impl<T: UciTx> VerifSearch<T> {
+        pub fn new(uci_tx: Arc<T>) -> Self {
+            let (search_tx, search_rx) = channel();
+            Self { search: Search::new(uci_tx, search_rx, SimpleHeuristic, MvvLvaMoveOrder, EngineOptions::default()), search_tx }
+        }
+
+        pub fn new_game(&mut self) { self.search.flags.reset_for_next_search = true; }
+        pub fn set_position(&mut self, fen: Fen, moves: Vec<UciMove>) { self.search.set_position_from(fen, moves); }
+        pub fn go(&mut self, go: Go) {
+            STOP_TX.with(|tx| *tx.borrow_mut() = Some(self.search_tx.clone()));
+            self.search.params.go = go;
+            self.search.go();
+        }
+        pub fn board_fen(&self) -> String { Fen::from(&self.search.state.bitboard).fen }
+        pub fn nodes_of_last_search(&self) -> u64 { self.search.state.metrics.last.negamax_nodes }
+        pub fn contempt_factor(&self) -> i32 { self.search.options.contempt_factor }
+    }
+
+    impl<T: UciTx, H: crate::engine::heuristic::Heuristic, M: crate::engine::move_order::MoveOrder> Search<T, H, M> {
+        pub(super) fn verif_poll(&mut self) -> bool {
+            match take_plan_if_due(self.state.metrics.last.negamax_nodes) {
+                None => false,
+                Some(AbortMode::StopSeen) => {
+                    STOP_TX.with(|tx| tx.borrow().as_ref().map(|tx| tx.send(SearchMessage::UciStop).ok()));
+                    true
+                }
+                Some(AbortMode::TimeUp) => {
+                    self.params.go.move_time = Some(Duration::ZERO);
+                    true
+                }
+            }
+        }
     }
 }
